@@ -193,6 +193,12 @@ def check(report: Report, repo: Repo) -> None:
                                 report.add("R3-operands", f"{base}::scale_bwd({p})::data", not ds, f"{gs}: backward factor must not depend on tensor values", fmt(bv), "shape/hyper-parameter expression", nontrivial=False)
                                 if not ds:
                                     report.add("R3-operands", f"{base}::scale_bwd({p})::positive", sample_positive(bv), f"{gs}: backward factor must be positive", fmt(bv), "> 0", nontrivial=False)
+                                pw = args.get("scale_power")
+                                if isinstance(pw, tuple) and len(pw) == 3 and all(isinstance(x_, sp.Symbol) for x_ in pw) and label == "constraint=None":
+                                    # documented routing of the three powers: (output, grad(input), grad(weight|bias))
+                                    own = pw[1] if p == "input" else pw[2]
+                                    fs = set(sp.sympify(bv).free_symbols) & set(pw)
+                                    report.add("R3-operands", f"{base}::scale_bwd({p})::power", fs == {own}, f"{gs}: the backward factor of '{p}' is governed by its own entry of scale_power and no other", sorted(map(str, fs)), str(own))
                             else:
                                 report.add("R3-operands", f"{base}::scale_bwd({p})::data", False if isinstance(bv, T) else None, f"{gs}: backward factor is not a closed-form scalar", fmt(bv), "shape/hyper-parameter expression")
                     for p in diff:
